@@ -356,9 +356,14 @@ impl Profile {
                         }
                     }
                     let leaf = |w: u8| s("x".into(), &[], &[w], 3, vec![]);
+                    // names inside a batch are a namespace of their own: an inner system may be called like an outer one
+                    let twin = |n: &str| s(n.into(), &[], &[1], 3, vec![]);
                     let inners: Vec<Vec<Op>> = vec![
                         vec![leaf(0)],
                         vec![leaf(1)],
+                        vec![twin("s0")],
+                        vec![twin("s1")],
+                        vec![twin("filler"), twin("s0")],
                         vec![Op::Batch(BatchSpec { name: "n".into(), deps: vec![], ctrl: CtrlData::Unit, times: 1, multi: false, fetch_data: false, inner: vec![leaf(0)] })],
                     ];
                     for inner in inners {
@@ -416,7 +421,7 @@ impl Profile {
             }
             Profile::N => {
                 let used = named_before(prefix);
-                for nm in ["a", "", "a b", "a-b", "a/b", "a_b", "b c/d-e"] {
+                for nm in ["a", "", "a b", "a-b", "a/b", "a_b", "b c/d-e", " ", "  ", "--"] {
                     if !nm.is_empty() && used.iter().any(|u| u == nm) {
                         continue;
                     }
@@ -494,6 +499,8 @@ pub struct E1Run<'a> {
     pub need: Need,
     pub deadline: Instant,
     pub threads: usize,
+    /// every builder of this run gets a user-supplied pool of that many threads attached first
+    pub user_pool: Option<usize>,
 }
 
 struct Worker<'a> {
@@ -728,13 +735,16 @@ pub fn run_profile(run: &E1Run) -> E1Result {
         }
     }
     let mut p0 = Vec::new();
+    crate::obs::set_e1_user_pool(run.user_pool);
     shallow(&mut main, &mut p0, false, split, &mut roots);
+    crate::obs::set_e1_user_pool(None);
 
     let next = AtomicUsize::new(0);
     let results: Mutex<Vec<(E1Stats, HashSet<u64>, Collector, Vec<Value>)>> = Mutex::new(Vec::new());
     std::thread::scope(|sc| {
         for _ in 0..run.threads.max(1) {
             sc.spawn(|| {
+                crate::obs::set_e1_user_pool(run.user_pool);
                 let mut w = Worker { run, stats: E1Stats::default(), layouts: HashSet::new(), col: Collector::default(), samples: vec![] };
                 loop {
                     let i = next.fetch_add(1, Ordering::Relaxed);
@@ -877,8 +887,57 @@ pub fn families(nmax: usize) -> Vec<(String, Vec<Op>)> {
     out
 }
 
+/// Plans over MORE THAN 16 distinct resources (the six-resource universe cannot reach list lengths at which code
+/// switches strategy): abstract resource 0 is the contested one, 1..=n are fillers; they are mapped onto sweep
+/// classes of one Rust type so that the contested id sorts first / in the middle / last among them.
+pub fn wide_families() -> Vec<(String, Vec<Op>, Vec<u8>)> {
+    let mut out = Vec::new();
+    for n in [15usize, 16, 17, 18, 24, 32] {
+        let fillers: Vec<u8> = (1..=n as u8).collect();
+        let x = 0u8;
+        let sys = |name: &str, r: &[u8], w: &[u8]| s(name.into(), r, w, 3, vec![]);
+        let batch = |name: &str, inner: Vec<Op>| Op::Batch(BatchSpec { name: name.into(), deps: vec![], ctrl: CtrlData::Unit, times: 1, multi: false, fetch_data: false, inner });
+        let mut plans: Vec<(&str, Vec<Op>)> = Vec::new();
+        // a batch whose union names n + 1 resources, then an outside writer of the contested one
+        plans.push(("batch[writer of X; reader of n fillers]; writer of X", vec![batch("b", vec![sys("iw", &[], &[x]), sys("ir", &fillers, &[])]), sys("w", &[], &[x])]));
+        plans.push(("writer of X; batch[writer of X; reader of n fillers]", vec![sys("w", &[], &[x]), batch("b", vec![sys("iw", &[], &[x]), sys("ir", &fillers, &[])])]));
+        plans.push(("batch[reader of X; writer of n fillers]; writer of X", vec![batch("b", vec![sys("ir", &[x], &[]), sys("iw", &[], &fillers)]), sys("w", &[], &[x])]));
+        plans.push(("batch[n readers of one filler each; writer of X]; reader of X", {
+            let mut inner: Vec<Op> = fillers.iter().map(|f| sys(&format!("i{}", f), &[*f], &[])).collect();
+            inner.push(sys("iw", &[], &[x]));
+            vec![batch("b", inner), sys("r", &[x], &[])]
+        }));
+        // two inner systems of one batch
+        plans.push(("batch[batch[writer of X; reader of n fillers]; writer of X]", vec![batch("b", vec![batch("n", vec![sys("iw", &[], &[x]), sys("ir", &fillers, &[])]), sys("w2", &[], &[x])])]));
+        // no batch at all: a wide system
+        plans.push(("reader of n fillers writing X; writer of X", vec![sys("wide", &fillers, &[x]), sys("w", &[], &[x])]));
+        plans.push(("writer of X; reader of n fillers writing X", vec![sys("w", &[], &[x]), sys("wide", &fillers, &[x])]));
+        plans.push(("reader of X and n fillers; writer of X", vec![sys("wide", &std::iter::once(x).chain(fillers.iter().copied()).collect::<Vec<_>>(), &[]), sys("w", &[], &[x])]));
+        // compatible: nothing contested (must share a stage)
+        plans.push(("batch[reader of n fillers]; reader of X and of the fillers", vec![batch("b", vec![sys("ir", &fillers, &[])]), sys("r", &std::iter::once(x).chain(fillers.iter().copied()).collect::<Vec<_>>(), &[])]));
+        for xpos in [0usize, n / 2, n] {
+            // sweep classes of one type (even ones): class 6 + 2k is (Cell0, 100 + k); position k = xpos is X's
+            let mut map: Vec<u8> = Vec::with_capacity(n + 1);
+            map.push((NCONCRETE + 2 * xpos) as u8);
+            let mut k = 0usize;
+            for _ in 0..n {
+                if k == xpos {
+                    k += 1;
+                }
+                map.push((NCONCRETE + 2 * k) as u8);
+                k += 1;
+            }
+            for (label, ops) in &plans {
+                out.push((format!("wide({} fillers; X sorts at {}): {}", n, xpos, label), ops.clone(), map.clone()));
+            }
+        }
+    }
+    out
+}
+
 pub fn run_families(nmax: usize, props: Props, need: Need, deadline: Instant, threads: usize) -> E1Result {
-    let fams = families(nmax);
+    let mut fams: Vec<(String, Vec<Op>, Vec<u8>)> = families(nmax).into_iter().map(|(l, o)| (l, o, Ctx::identity_map())).collect();
+    fams.extend(wide_families());
     let next = AtomicUsize::new(0);
     let results: Mutex<Vec<(E1Stats, HashSet<u64>, Collector, Vec<Value>)>> = Mutex::new(Vec::new());
     std::thread::scope(|sc| {
@@ -897,9 +956,10 @@ pub fn run_families(nmax: usize, props: Props, need: Need, deadline: Instant, th
                         st.capped = true;
                         break;
                     }
-                    let (label, ops) = &fams[i];
+                    let (label, ops, resmap) = &fams[i];
                     let info = PlanInfo::of(ops);
-                    let obs = observe(ops, &Ctx::identity_map(), need);
+                    let obs = observe(ops, resmap, need);
+                    let wide = resmap.len() > NCONCRETE;
                     st.states += 1;
                     st.transitions += ops.len() as u64;
                     st.max_depth = st.max_depth.max(ops.len());
@@ -910,7 +970,7 @@ pub fn run_families(nmax: usize, props: Props, need: Need, deadline: Instant, th
                             prop: vi.prop.to_string(),
                             sig: vi.sig,
                             msg: format!("{} | family {}", vi.msg, label),
-                            replay: json!({"kind":"plan","family":label,"ops":plan_json(ops)}),
+                            replay: if wide { json!({"kind":"plan-wide","family":label,"ops":plan_json(ops),"resmap":resmap}) } else { json!({"kind":"plan","family":label,"ops":plan_json(ops)}) },
                             size: 100000 + ops.len(),
                         });
                     }
@@ -1051,6 +1111,12 @@ pub fn c19_check(ops: &[Op], l: &crate::hsys::Layout, nmaps: usize) -> (u64, Vec
         cmp(&format!("built where rayon reports {} threads", nthreads), "plan-depends-on-pool-size", ops, &idm, &mut n, &mut vs);
         rayon::verif::set_default_threads(None);
     }
+    // (vii-b) a user-supplied pool (of 1, 2 threads) attached before the registrations
+    for nthreads in [1usize, 2] {
+        crate::obs::set_e1_user_pool(Some(nthreads));
+        cmp(&format!("built with a user-supplied pool of {} thread(s) attached first", nthreads), "plan-depends-on-pool-size", ops, &idm, &mut n, &mut vs);
+        crate::obs::set_e1_user_pool(None);
+    }
     // (i) renamings
     let names: Vec<String> = named_before(ops);
     if !names.is_empty() {
@@ -1062,6 +1128,15 @@ pub fn c19_check(ops: &[Op], l: &crate::hsys::Layout, nmaps: usize) -> (u64, Vec
             let nn = names.clone();
             cmp("names rotated among the systems", "plan-depends-on-names", &map_names(ops, &|s| nn[(nn.iter().position(|x| x == s).unwrap_or(0) + 1) % nn.len()].clone()), &idm, &mut n, &mut vs);
         }
+    }
+    if !names.is_empty() && names.len() <= 4 {
+        // names that differ only in their separator characters are different names
+        let twins = ["n x", "n-x", "n/x", "n_x"];
+        let nn = names.clone();
+        cmp("names that differ only in a separator character (n x, n-x, n/x, n_x)", "plan-depends-on-names", &map_names(ops, &|s| twins[nn.iter().position(|x| x == s).unwrap_or(0) % 4].to_string()), &idm, &mut n, &mut vs);
+        let blanks = [" ", "  ", "-", "--"];
+        let nn = names.clone();
+        cmp("names made of blanks / separators only", "plan-depends-on-names", &map_names(ops, &|s| blanks[nn.iter().position(|x| x == s).unwrap_or(0) % 4].to_string()), &idm, &mut n, &mut vs);
     }
     // (i-b) the empty name is a name too: give every unnamed system a fresh name; un-name every system
     //       that nobody depends on
